@@ -130,7 +130,7 @@ class Panel(JupyterMixin):
         child_width = (
             width - 2
             if self.expand
-            else Measurement.get(console, renderable, width - 2).maximum
+            else max(1, Measurement.get(console, renderable, width - 2).maximum)
         )
         if title_text is not None:
             child_width = min(
